@@ -64,11 +64,14 @@ impl DirectoryPackCreator {
         }
 
         info!("----- Finalize entry_stores -----");
-        let finalized_entry_stores: Vec<Box<dyn WritableTell>> = self
-            .entry_stores
-            .into_iter()
-            .map(|e| e.finalize())
-            .collect();
+        // Entries may refer to the index of entries of another store:
+        // every store gets its final order before any layout is computed.
+        let mut entry_stores = self.entry_stores;
+        for entry_store in entry_stores.iter_mut() {
+            entry_store.order();
+        }
+        let finalized_entry_stores: Vec<Box<dyn WritableTell>> =
+            entry_stores.into_iter().map(|e| e.finalize()).collect();
 
         Ok(FinalizedDirectoryPackCreator {
             app_vendor_id: self.app_vendor_id,
